@@ -44,7 +44,7 @@ PROP = {
 
 
 MANIFEST = {
-    "text": "PARTIAL (safety only). Coq theorems over ALL runs, interleavings, fault patterns the E4 checksum/handshake detects, retry limits, queue contents and simultaneous sends of a two-engine (master/slave) LTS on a synchronous lossy line: the delivered sequence at each end is a duplicate-free, order-preserving image of the sequence successfully sent by the other (exactly-once, intact, in order); a block is attempted at most retry+1 times; the master never yields, the slave yields and its postponed send follows; no reachable state is a deadlock (56-state control skeleton closed by vm_compute + data invariants); byte-level fault classes (intact / corrupt / truncated / lengthened) via the C17 block theorems; the model's receiver is proved to be the abstraction of the C17 assembler. Tied by the REAL lineIO.sendBlock/receiveBlock over a simulated conn in virtual time replayed label by label in the extracted LTS (equal character traces), and by two real endpoints through a fault-injecting middlebox judged by the extracted monitor. One defect found (blocks acknowledged after the engine's own send had failed were lost) and repaired in the code (fix 2852a07).",
-    "note": "PARTIAL: safety only — 'the send fails and the link is re-established' (liveness) is observed, not proved; modelling assumptions: no stale characters (synchronous line: a timeout is enabled only when nothing is in flight), T1 < T2, only E4-detectable faults (a NAK replaced by ACK is outside E4's detection, exhibited as a witness).",
+    "text": "Safety and progress. Coq theorems over ALL runs, interleavings, fault patterns the E4 checksum/handshake detects, retry limits, queue contents and simultaneous sends of a two-engine (master/slave) LTS on a synchronous lossy line: the delivered sequence at each end is a duplicate-free, order-preserving image of the sequence successfully sent by the other (exactly-once, intact, in order); a block is attempted at most retry+1 times; the master never yields, the slave yields and its postponed send follows; no reachable state is a deadlock (56-state control skeleton closed by vm_compute + data invariants); byte-level fault classes (intact / corrupt / truncated / lengthened) via the C17 block theorems; the model's receiver is proved to be the abstraction of the C17 assembler. Tied by the REAL lineIO.sendBlock/receiveBlock over a simulated conn in virtual time replayed label by label in the extracted LTS (equal character traces), and by two real endpoints through a fault-injecting middlebox judged by the extracted monitor. PROGRESS (C18_progress, explicit decreasing measure mu): from any state reached through any finite fault history, every fault-free continuation (any scheduling of the two engines and their timers) has at most mu(s) steps, is never stuck, and ends settled - every queued message of both directions delivered exactly once, in order, with its send returned nil, or the link down. One defect found (blocks acknowledged after the engine's own send had failed were lost) and repaired in the code (fix 2852a07); the regenerated assembler and splitBody are bridged to the model (Tie2Secs1Asm, Tie2Secs1).",
+    "note": "PARTIAL only in this: which end's T2 fires first is left open, so 'a send fails only after its budget was exhausted by real faults' and link re-establishment are real-time statements observed e2e; modelling assumptions: no stale characters (synchronous line: a timeout is enabled only when nothing is in flight), T1 < T2, only E4-detectable faults (a NAK replaced by ACK is outside E4's detection, exhibited as a witness).",
     "technique": 'Rocq/Coq proof (LTS invariants, finite control skeleton closed by vm_compute) + correspondence replay of the real line engine in virtual time + e2e middlebox judged by the extracted monitor',
 }
